@@ -77,29 +77,8 @@ func Serve(targets []Target, memLimitMB int) {
 			}
 			msg = targets[ti].Run(data)
 		}()
-		select {
-		case <-done:
-		case <-time.After(time.Duration(budgetMS) * time.Millisecond):
-			status = byte(Hang)
-			// One huge allocation sized by a length field that is still being
-			// zeroed or walked is a memory question, not a hang: the mapped
-			// memory is large and no longer grows. A heap that keeps growing
-			// is an unbounded loop.
-			var m1, m2 runtime.MemStats
-			runtime.ReadMemStats(&m1)
-			select {
-			case <-done:
-				status = byte(OK)
-			case <-time.After(1500 * time.Millisecond):
-				runtime.ReadMemStats(&m2)
-				if m1.Sys > 1<<30 && m2.Sys == m1.Sys {
-					status = byte(Oversize)
-				}
-			}
-			buf := make([]byte, 1<<16)
-			buf = buf[:stackAll(buf)]
-			msg = string(buf)
-		}
+		<-done
+		_ = budgetMS
 		if len(msg) > 1<<15 {
 			msg = msg[:1<<15]
 		}
@@ -115,8 +94,8 @@ func Serve(targets []Target, memLimitMB int) {
 		out.Write(rh[:])
 		out.WriteString(msg)
 		out.Flush()
-		if status == byte(Hang) || status == byte(Oversize) || status&0x80 != 0 {
-			os.Exit(3) // the stuck goroutine cannot be cancelled / recycle
+		if status&0x80 != 0 {
+			os.Exit(3) // recycle: the address space is never given back
 		}
 	}
 }
@@ -264,17 +243,54 @@ func (p *Pool) once(ti int, data []byte, budget time.Duration) (Status, string) 
 			}
 			return Died, firstLines(stderr, 40)
 		}
-		if r.st == Hang || r.st == Oversize || r.st&0x80 != 0 {
+		if r.st&0x80 != 0 {
 			p.cmd.Wait()
 			p.cmd = nil
 			r.st &^= 0x80
 		}
 		return r.st, r.msg
-	case <-time.After(budget + 5*time.Second):
-		// the worker's own watchdog did not answer: it is wedged (e.g. spinning with the scheduler starved)
+	case <-time.After(budget):
+		// No answer within the budget. One huge allocation sized by a length
+		// field that is still being zeroed or walked is a memory question, not a
+		// hang: the address space is large and no longer grows. A process whose
+		// address space keeps growing is in an unbounded loop.
+		v1 := vmSize(p.cmd.Process.Pid)
+		select {
+		case r := <-ch:
+			if r.err == nil {
+				if r.st&0x80 != 0 {
+					p.cmd.Wait()
+					p.cmd = nil
+					r.st &^= 0x80
+				}
+				return r.st, r.msg
+			}
+		case <-time.After(1500 * time.Millisecond):
+		}
+		v2 := vmSize(p.cmd.Process.Pid)
+		st, msg := Hang, fmt.Sprintf("no answer after %v (address space %d MiB, %d MiB 1.5 s later)", budget, v1>>20, v2>>20)
+		if v1 > 1<<30 && v2 == v1 {
+			st = Oversize
+		}
+		p.cmd.Process.Signal(syscall.SIGQUIT) // ask the runtime for a goroutine dump
+		time.Sleep(300 * time.Millisecond)
 		p.stop()
-		return Hang, "worker did not answer"
+		return st, msg + "\n" + firstLines(p.errBuf.String(), 60)
 	}
+}
+
+// vmSize returns the virtual memory size of a process in bytes (0 if unknown).
+func vmSize(pid int) uint64 {
+	b, err := os.ReadFile(fmt.Sprintf("/proc/%d/statm", pid))
+	if err != nil {
+		return 0
+	}
+	f := strings.Fields(string(b))
+	if len(f) == 0 {
+		return 0
+	}
+	n, _ := strconv.ParseUint(f[0], 10, 64)
+	return n * uint64(os.Getpagesize())
 }
 
 var oomRe = regexp.MustCompile(`cannot allocate (\d+)-byte block \((\d+) in use\)`)
